@@ -163,13 +163,15 @@ impl<T> VxIo<T> for Result<T, std::io::Error> {
   { unimplemented!() }
 }
 
-// C14 allocation contract (DESIGN.md, C14 / R8): an allocation made while parsing must be covered by bytes that are known to be present:
-// n * size <= 16 * input_len + CONFIG_MAX(family).  No field of a Bloom image bounds numLongs short of the i32 range, so CONFIG_MAX is 0.
-spec const BLOOM_CONFIG_MAX: int = 0;
+// C14 allocation contract (DESIGN.md, C14 / R8): an allocation made while parsing is covered by bytes that are known to be present,
+// up to what a validated configuration field implies:  n * size <= 16 * input_len + CONFIG_MAX.
+// Bloom: a full image carries its bit array, so nothing beyond the input is granted (CONFIG_MAX = 0); an EMPTY image denotes numLongs
+// zero words without carrying them - that expansion is the format's own (numLongs is a positive Java int), CONFIG_MAX = 8 * (2^31 - 1).
+spec const BLOOM_CONFIG_MAX_EMPTY: int = 8 * 0x7fff_ffffint;
 // `vec![0u64; n]` in the parser
 #[verifier::external_body]
-fn vx_alloc_vec(x: u64, n: usize, Ghost(input_len): Ghost<int>) -> (r: Vec<u64>)
-  requires /*@C14.bloom.alloc_bounded*/ n * 8 <= 16 * input_len + BLOOM_CONFIG_MAX
+fn vx_alloc_vec(x: u64, n: usize, Ghost(budget): Ghost<(int, int)>) -> (r: Vec<u64>)    // budget = (input_len, CONFIG_MAX)
+  requires /*@C14.bloom.alloc_bounded*/ n * 8 <= 16 * budget.0 + budget.1
   ensures r@.len() == n, forall|i: int| 0 <= i < n ==> r@[i] == x
 { vec![x; n] }
 // R15: `bit_array.iter().map(|w| w.count_ones() as u64).sum()`
@@ -509,7 +511,7 @@ impl BloomFilter {
         bytes.write_u32_le(0); // unused
         let ghost v = self.img();
         proof {
-            assert(bytes@ =~= bloom_head(preamble_longs, if is_empty { 4u8 } else { 0u8 }, v));
+            assert(/*@C12.bloom.image*/ bytes@ =~= bloom_head(preamble_longs, if is_empty { 4u8 } else { 0u8 }, v));
         }
 
         if !is_empty {
@@ -534,7 +536,7 @@ impl BloomFilter {
             }
             proof {
                 assert(self.bit_array@.take(self.bit_array@.len() as int) =~= self.bit_array@);
-                assert(bytes@ =~= enc_bloom_full(v, self.num_bits_set));
+                assert(/*@C12.bloom.image*/ bytes@ =~= enc_bloom_full(v, self.num_bits_set));
                 lemma_enc_u64s_len(self.bit_array@);
             }
         }
@@ -579,7 +581,7 @@ impl BloomFilter {
             Family::BLOOMFILTER.min_pre_longs, Family::BLOOMFILTER.max_pre_longs,
             preamble_longs)?;
 
-        proof { assert(1u8 << 2 == 4u8) by (bit_vector); }
+        proof { assert(1u8 << 2 == 4u8) by (bit_vector); assert((flags & 4 == 4) == (flags & 4 != 0)) by (bit_vector); }
         let is_empty = (flags & EMPTY_FLAG_MASK) != 0;
 
         // Bytes 4-5: num_hashes (u16)
@@ -613,7 +615,7 @@ impl BloomFilter {
         }
 
         let num_words = num_longs as usize;
-        let mut bit_array = vx_alloc_vec(0u64, num_words, Ghost(b.len() as int)).into_boxed_slice();
+        let mut bit_array = vx_alloc_vec(0u64, num_words, Ghost((b.len() as int, if is_empty { BLOOM_CONFIG_MAX_EMPTY } else { 0int }))).into_boxed_slice();
         let num_bits_set;
 
         if is_empty {
